@@ -7,15 +7,17 @@ import std_specs as S
 from engine.rsx import ScanError as S_ScanError
 
 PROPERTIES = ["C07"]
-MIN_VERIFIED = 13
+MIN_VERIFIED = 15
 F = 'src/operator/mod.rs'
 ASSUMPTIONS = [
     "V-BLOCK: the bodies of the closures passed to group_by_fold by Stream::group_by_avg / group_by_sum / group_by_count are extracted byte for byte and wrapped in functions whose parameters are the closure's parameters (destructuring patterns kept as a `let`); the builder code around them (group_by_fold itself, the final `.map(..)` of avg/sum) is not under contract",
     "V-SUBST: `*x += e` on the user's value type V -> x.add_assign(e) on a model trait AddAssign with a spec function plus (Verus has no contract for overloaded `+=` on a generic type); plus is ASSUMED associative (the property's own hypothesis); usize `+=` is kept and checked for overflow (counts < 2^64: precondition)",
     "get_value is a total deterministic function (closure contract)",
+    "group_by_max_element / group_by_min_element: the value type's `>` / `<` obey vstd's partial_cmp_spec (V::obeys_partial_cmp_spec(): assumed for the user's Ord type); that the order is total / transitive (needed for 'the result is THE maximum') is the user's obligation",
     "group_by_reduce / reduce / reduce_assoc: the user's reduce function is a total mathematical function rs(a, b) (assumed contract of the opaque closure); the captured f / f2 (a clone of f) become parameters of the wrapper functions",
 ]
 PRELUDE = r'''
+use vstd::std_specs::cmp::PartialOrdSpec;
 trait AddAssign: Sized {
     spec fn plus(self, o: Self) -> Self;
     fn add_assign(&mut self, o: Self) ensures *final(self) == old(self).plus(o);
@@ -164,6 +166,20 @@ def build(x):
                  f"{{\n    {b8.strip()}\n}}\n")
     gr.note('V-BLOCK', 2, 'closure bodies of group_by_reduce extracted and wrapped in functions of the closure parameters (the captured user function f / f2 becomes a parameter)')
     pieces.append(gr)
+
+    # ---- group_by_max_element / group_by_min_element: the reduce function keeps the element with the greater / smaller value
+    for nm, ordering, word in (('group_by_max_element', 'Greater', 'greater'), ('group_by_min_element', 'Less', 'smaller')):
+        mf = x.method(F, 'Stream', nm)
+        mc, bc = closure_body(mf, r'move \|(\w+), (\w+)\|')
+        o, vv = mc.group(1), mc.group(2)
+        mf.text = (f"fn {nm}_step<T, V: Ord, Fv: Fn(&T) -> V>(get_value: Fv, {o}: &mut T, {vv}: T)\n"
+                   f"    requires V::obeys_partial_cmp_spec(), forall|t: &T| get_value.requires((t,)),\n"
+                   f"        forall|t: &T, v1: V, v2: V| #[trigger] get_value.ensures((t,), v1) && #[trigger] get_value.ensures((t,), v2) ==> v1 == v2,\n"
+                   f"    ensures forall|a: V, b: V| #[trigger] get_value.ensures((&{vv},), a) && #[trigger] get_value.ensures((&*old({o}),), b) ==>\n"
+                   f"        *final({o}) == (if a.partial_cmp_spec(&b) == Some(core::cmp::Ordering::{ordering}) {{ {vv} }} else {{ *old({o}) }}),   // #obl:{nm[9:]}.keeps_the_element_with_the_{word}_value\n"
+                   f"{{\n    {bc.strip()}\n}}\n")
+        mf.note('V-BLOCK', 1, f'closure body of {nm} extracted and wrapped in a function of the closure parameters (the captured get_value becomes a parameter)')
+        pieces.append(mf)
 
     # ---- reduce / reduce_assoc (global forms, user function Fn(I, I) -> I)
     rd = x.method(F, 'Stream', 'reduce')
